@@ -245,6 +245,12 @@ def manifest_replay_compare(m, rev, call, kv, res):
     if int(mkv['seq'], 16) > int(kv['lastseq'], 16):
         bad(detail='recorded last_sequence ahead of the one in memory', implementation=kv['lastseq'], model=mkv['seq'])
 
+def split_status(ret):
+    """'<body> status=<n>' -> (body, n); anything else (e.g. 'closed', 'noiter') -> (ret, 'missing')"""
+    if ' status=' in ret:
+        b, st = ret.rsplit(' status=', 1); return b, st
+    return ret, 'missing'
+
 def validate(calls, ops, opts, model_exe, res, keys_known, check_every_layout=True, max_problems=12):
     """Walk the trace, drive the model; fills res (K2Result)."""
     m = Model(model_exe)
@@ -604,7 +610,7 @@ def validate(calls, ops, opts, model_exe, res, keys_known, check_every_layout=Tr
                 res.stats['scans'] += 1
                 q = '-' if a[1] == '-' else '%x' % snaps[int(a[1])]
                 mv = m.ask('e_view %s' % q)
-                cv, status = ret.rsplit(' status=', 1)
+                cv, status = split_status(ret)
                 if name == 'rscan':
                     mv = ','.join(reversed(mv.split(','))) if mv != '.' else '.'
                 if cv != mv or status != '0':
@@ -614,7 +620,7 @@ def validate(calls, ops, opts, model_exe, res, keys_known, check_every_layout=Tr
                 q = '-' if a[1] == '-' else '%x' % snaps[int(a[1])]
                 view = parse_view(m.ask('e_view %s' % q))
                 exp, _ = script_oracle(view, a[2], rev)
-                got, status = ret.rsplit(' status=', 1)
+                got, status = split_status(ret)
                 if got.split(' ') != exp or status != '0':
                     res.problem('iter-vs-spec', call['idx'], op=opline, implementation=ret[:2000], spec=' '.join(exp)[:2000])
                 # the model iterator (DbIter over Merger, Coq replica) on the same script
@@ -630,7 +636,7 @@ def validate(calls, ops, opts, model_exe, res, keys_known, check_every_layout=Tr
                 it = iters.get(int(a[1]) % 64)
                 if it is not None:
                     exp, pos = script_oracle(it[0], a[2], rev, it[1]); it[1] = pos
-                    got, status = ret.rsplit(' status=', 1)
+                    got, status = split_status(ret)
                     if got.split(' ') != exp or status != '0':
                         res.problem('iter-vs-spec', call['idx'], op=opline, implementation=ret[:2000], spec=' '.join(exp)[:2000])
                     mi = m.ask('e_istep %d %s' % (int(a[1]) % 64, a[2]))
